@@ -441,9 +441,13 @@ class Engine(OpsMixin):
             if self.check(*cons) != z3.sat:
                 return
             model = self.cur_model()
-        self.violations.append(dict(site=site, known=None, model_nondet=self.path_model_nondet, inputs=self.extract_inputs(model),
-                                    exc=type(exc).__name__ if exc else None,
-                                    where=_exc_where(exc) if exc else None))
+        v = dict(site=site, known=None, model_nondet=self.path_model_nondet, inputs=self.extract_inputs(model),
+                 exc=type(exc).__name__ if exc else None, where=_exc_where(exc) if exc else None)
+        if self.path_model_nondet and not regions:
+            # the path depends on an over-approximating library model: keep the constraint system and the input terms so
+            # that further models can be tried natively if this one turns out to be an unrealised choice
+            v["_smt"] = (list(self.pc) + cons, dict(self.inputs))
+        self.violations.append(v)
 
     def eval_region(self, src):
         node = ast.parse(src, mode="eval").body
@@ -1626,6 +1630,8 @@ class Engine(OpsMixin):
             return x
         if isinstance(x, (SymInt, SymBV)):
             return LazyStr([("int", x)])
+        if isinstance(x, SymFloat) and x.noise is not None:
+            raise Unsupported("str/repr of a float carrying rounding noise (17 significant digits)")
         if isinstance(x, SymFloat) and x.dec is not None:
             return LazyStr([("float", x)])
         if isinstance(x, SymBool):
